@@ -271,9 +271,11 @@ async fn main(plan: Plan, slow_permille: u64) -> Outcome {
     let mut ok = 0;
     let mut errs = 0;
     let mut cancelled = 0;
+    // Every request that is not abandoned is answered by the node within seconds.
+    let join_deadline = tokio::time::Instant::now() + Duration::from_secs(600);
     for h in handles {
-        match h.await {
-            Ok((v, o, e, c)) => {
+        match tokio::time::timeout_at(join_deadline, h).await {
+            Ok(Ok((v, o, e, c))) => {
                 for m in v {
                     out.violation("c02.attribution", m);
                 }
@@ -281,7 +283,14 @@ async fn main(plan: Plan, slow_permille: u64) -> Outcome {
                 errs += e;
                 cancelled += c;
             }
-            Err(e) => out.violation("c02.client_task", format!("client task failed: {e}")),
+            Ok(Err(e)) => out.violation("c02.client_task", format!("client task failed: {e}")),
+            Err(_) => {
+                out.violation(
+                    "c02.response_never_delivered",
+                    "a caller is still waiting 600 virtual s after the workload started although the node answers every request that was not abandoned within seconds: a response reached no one".into(),
+                );
+                break;
+            }
         }
     }
     // Let late responses to abandoned requests arrive (orphan path); requests the
